@@ -156,3 +156,14 @@ class FString:
   """f-string value: list of parts (python str literals and evaluated values)"""
   def __init__(self, parts):
     self.parts = parts
+
+
+class GlobalVar:
+  """a module-level variable / config flag of /repo read by the code: an unconstrained constant of
+  the given sort (the same one wherever it is read, also in contract clauses)"""
+  def __init__(self, name, sort):
+    self.name, self.sort = name, sort
+
+  def value(self):
+    import z3
+    return SV(self.sort, z3.Const('global!' + self.name, self.sort.z3()))
